@@ -15,8 +15,8 @@ Record mdesc := {
   m_status : Z;                       (* 0, or the exception thrown after clear() and before any point is loaded *)
   m_vs : list Z;                      (* coordinate identity of every vertex of the file *)
   m_ts : list (nat * nat * nat);      (* triangles, file-local vertex numbers *)
-  m_source : Z                        (* SurfSourceMat(reference head, this mesh): 0 = rejected before the flags are set
-                                         (overlap / outside), otherwise fingerprint of the matrix *)
+  m_source : Z;                       (* SurfSourceMat(reference head, this mesh): 0 = exception, otherwise fingerprint of the matrix *)
+  m_sflag : bool                      (* the call got as far as marking the mesh outermost / current barrier *)
 }.
 Record mst := {
   y_gverts : list Z;                  (* geometry().vertices() *)
@@ -72,7 +72,7 @@ Inductive mop :=
 | MLoad (i : nat)
 | MSurfSource.      (* SurfSourceMat(reference head, mesh) *)
 
-Definition dummy_mdesc : mdesc := {| m_status := 3; m_vs := []; m_ts := []; m_source := 0 |}.
+Definition dummy_mdesc : mdesc := {| m_status := 3; m_vs := []; m_ts := []; m_source := 0; m_sflag := false |}.
 
 Definition m_step (c : mcfg) (W : list mdesc) (o : mop) (s : mst) : mst * list Z :=
   match o with
@@ -80,10 +80,10 @@ Definition m_step (c : mcfg) (W : list mdesc) (o : mop) (s : mst) : mst * list Z
   | MSurfSource =>
       match y_desc s with
       | None => (s, m_observe (-1) s)
-      | Some i => let v := m_source (nth i W dummy_mdesc) in
-                  if v =? 0 then (s, m_observe 0 s)
+      | Some i => let d := nth i W dummy_mdesc in
+                  if negb (m_sflag d) then (s, m_observe (m_source d) s)
                   else let s' := {| y_gverts := y_gverts s; y_mverts := y_mverts s; y_tris := y_tris s; y_outer := true; y_cb := true;
-                                    y_iso := y_iso s; y_desc := y_desc s |} in (s', m_observe v s')
+                                    y_iso := y_iso s; y_desc := y_desc s |} in (s', m_observe (m_source d) s')
       end
   end.
 Fixpoint m_run (c : mcfg) (W : list mdesc) (h : list mop) (s : mst) : mst :=
